@@ -368,14 +368,6 @@ theorem apply_refines {s : DSt} {a : ASt} (h : Abs s a) (op : DOp) (hok : op.ok 
 
 /-! ### operation lists -/
 
-/-- Run a list of calls on the memory, collecting the results (`none` = some call panicked). -/
-def DSt.run : DSt → List DOp → Option (DSt × List DRes)
-  | s, [] => some (s, [])
-  | s, op :: ops => do
-    let (s1, r) ← s.apply op
-    let (s2, rs) ← s1.run ops
-    pure (s2, r :: rs)
-
 /-- Run a list of calls on the specification. -/
 def ASt.run : ASt → List DOp → ASt × List DRes
   | a, [] => (a, [])
@@ -433,5 +425,60 @@ theorem spec_frame (a : ASt) (op : DOp) :
     | exact Nat.le_add_right _ _
     | exact if_neg (by omega)
     | (unfold copyVal; exact if_neg (by omega))
+
+/-! ### ranging over a list while the loop body mutates it -/
+
+/-- The idiomatic `container/list` loop `for e := l.Front(); e != nil; e = e.Next() { body }` on
+the specification: `Next` is evaluated AFTER the body, in the state the body left behind (so
+removing the current node ends the loop, removing its successor skips it, a node inserted after
+the current one is visited). -/
+def ASt.rangeAll (body : Nat → List DOp) (stop : Nat → Bool) :
+    Nat → Nat → Ptr → ASt → List (Nat × Int) → ASt × List (Nat × Int) × Bool
+  | _, _, none, a, acc => (a, acc.reverse, true)
+  | 0, _, some _, a, acc => (a, acc.reverse, false)
+  | f + 1, i, some e, a, acc =>
+    let y := (e, a.val e)
+    let a1 := (a.run (body i)).1
+    if stop i then (a1, (y :: acc).reverse, true)
+    else ASt.rangeAll body stop f (i + 1) (a1.next e) a1 (y :: acc)
+
+/-- Every call of every iteration's body is allowed in the state it is issued in. -/
+def RangeOk (body : Nat → List DOp) (stop : Nat → Bool) : Nat → Nat → Ptr → ASt → Prop
+  | _, _, none, _ => True
+  | 0, _, some _, _ => True
+  | f + 1, i, some e, a =>
+    OpsOk a (body i) ∧
+      (stop i = false → RangeOk body stop f (i + 1) ((a.run (body i)).1.next e) (a.run (body i)).1)
+
+/-- `DList.All()` / the `Front`–`Next` loop of the model, with an arbitrary mutating body,
+yields exactly what the `container/list` loop yields and ends in related states. -/
+theorem range_refines (body : Nat → List DOp) (stop : Nat → Bool) :
+    ∀ (f i : Nat) (p : Ptr) (s : DSt) (a : ASt) (acc : List (Nat × Int)), Abs s a →
+      RangeOk body stop f i p a →
+      ∃ s', DSt.rangeAll body stop f i p s acc =
+          some (s', (ASt.rangeAll body stop f i p a acc).2.1, (ASt.rangeAll body stop f i p a acc).2.2) ∧
+        Abs s' (ASt.rangeAll body stop f i p a acc).1 := by
+  intro f
+  induction f with
+  | zero =>
+    intro i p s a acc h _
+    cases p <;> exact ⟨s, by simp [DSt.rangeAll, ASt.rangeAll], by simpa [ASt.rangeAll] using h⟩
+  | succ f ih =>
+    intro i p s a acc h hok
+    cases p with
+    | none => exact ⟨s, by simp [DSt.rangeAll, ASt.rangeAll], by simpa [ASt.rangeAll] using h⟩
+    | some e =>
+      obtain ⟨hops, hrest⟩ := hok
+      obtain ⟨s1, r1, h1⟩ := run_refines h (body i) hops
+      by_cases hs : stop i = true
+      · refine ⟨s1, ?_, by simpa [ASt.rangeAll, hs] using h1⟩
+        simp [DSt.rangeAll, ASt.rangeAll, r1, hs, h.val e]
+      · have hs' : stop i = false := by simpa using hs
+        obtain ⟨s', r2, h2⟩ := ih (i + 1) ((a.run (body i)).1.next e) s1 (a.run (body i)).1
+          ((e, a.val e) :: acc) h1 (hrest hs')
+        refine ⟨s', ?_, by simpa [ASt.rangeAll, hs'] using h2⟩
+        simp only [DSt.rangeAll, r1, Option.bind_eq_bind, Option.bind_some, hs', h.val e,
+          nodeNext_abs h1 e, ASt.rangeAll]
+        simpa using r2
 
 end Golib.C13
